@@ -12,6 +12,9 @@
 //!                 between constructions), all 256 functions built by two of three routes
 //!                 (DNF / CNF / Shannon), all 256x256x2 apply pairs + 256 negations, half of
 //!                 them through the budgeted twins with an unlimited budget.
+//!   exhaustive4 : one manager holding all 65536 functions of 4 variables (Shannon construction,
+//!                 level by level, variables optionally introduced between levels), all negations,
+//!                 sampled left operands against all 65536 right operands.
 //!   random      : operation sequences of 20-200 operations over <= 8 variables, variables
 //!                 introduced between operations, independent and exclusive-group weights,
 //!                 the engine's `phi AND exactly_one(G)` pattern, re-weighting.
@@ -30,7 +33,7 @@ use shared::sdd::{BoolOp, SddBudgetError, SddId, SddManager, SddOperationBudget,
 use std::cell::Cell;
 use std::collections::{BTreeSet, HashMap, HashSet};
 
-const RULE: &str = "exhaustive3: 6 introduction orders x {all variables first, variables introduced between constructions} x 16 blocks of 16 left operands, every block = 16x256x2 apply pairs + 16 negations on a manager holding all 256 functions (built by two construction routes). random: seeded operation programs (20-200 operations, <=8 variables introduced between operations, independent + exclusive-group weights). faults: every (program, target operation, budget kind, k) with the deadline expiring at the k-th checkpoint (k=1..N+1) or node budget node_count()+j (j=0..A+1), each in a fresh manager, plus cumulative retry runs. Non-trivial = (a) an operation whose verified result is neither a constant nor one of its operands, distinct by (phase, case, step); (b) an interruption point at which the budget actually fired (deadline callback returned false / NodeBudgetExceeded), distinct by (program, step, kind, k) — these are also summed in counters fault.*.fired.";
+const RULE: &str = "exhaustive3: 3 construction-route variants x 6 introduction orders x {all variables first, variables introduced between constructions} x 16 blocks of 16 left operands; every block = 16x256x2 apply pairs + 16 negations on a manager holding all 256 functions (built by two of the routes DNF/CNF/Shannon). exhaustive4: managers holding all 65536 functions of 4 variables (random or, thorough, every introduction order), all 65536 negations, sampled left operands against all 65536 right operands x 2 operators. random: seeded operation programs (20-200 operations, <=8 variables introduced between operations, independent + exclusive-group weights, phi AND exactly_one(G)). faults: every (program, target operation, budget kind, k) with the deadline expiring at the k-th checkpoint (k=1..N+1), refusing only at the k-th checkpoint, or node budget node_count()+j (j=0..A+1), each in a fresh manager; faults_cumulative: every operation of a program retried with growing budgets in one manager. Non-trivial = (a) an operation whose verified result is neither a constant nor one of its operands, distinct by (phase, seed, case, step), one per exhaustive case; (b) an interruption point at which the budget actually fired (deadline callback returned false / NodeBudgetExceeded), distinct by (program, step, kind, k) - the fresh-manager ones are also summed in counters fault.<kind>.fired, the cumulative ones in cumulative.<kind>.fired_outcome_err.";
 
 // ---------------------------------------------------------------------------------------
 // truth tables over 8 variable slots
@@ -1130,8 +1133,8 @@ fn phase_exhaustive4(ctx: &mut Ctx) {
     ctx.phase("exhaustive4", ctx.by_tier(8, 24 * 2 * 4));
     while let Some(k) = ctx.next_case() {
         if !ctx.within(0.3) {
-            ctx.count("exhaustive4.cases_skipped_to_leave_budget", 1);
-            continue;
+            ctx.count("phase_stopped_at_its_share_of_the_budget.exhaustive4", 1);
+            break;
         }
         let mut r = ctx.rng(k);
         let order = perm4(if ctx.thorough() { (k % 24) as usize } else { r.below(24) });
@@ -1400,11 +1403,11 @@ fn run_program(ctx: &mut Ctx, p: &Prog, label: &str, k: u64, twins: bool) -> Opt
 }
 
 fn phase_random(ctx: &mut Ctx) {
-    ctx.phase("random", ctx.by_tier(2_400, 100_000));
+    ctx.phase("random", ctx.by_tier(2_000, 100_000));
     while let Some(k) = ctx.next_case() {
         if !ctx.within(0.55) {
-            ctx.count("random.cases_skipped_to_leave_budget_for_faults", 1);
-            continue;
+            ctx.count("phase_stopped_at_its_share_of_the_budget.random", 1);
+            break;
         }
         let mut r = ctx.rng(k);
         let big = r.chance(1, 2);
@@ -1550,7 +1553,7 @@ fn ks_for(n: usize, cap: usize, r: &mut Rng) -> Vec<usize> {
 
 fn phase_faults(ctx: &mut Ctx) {
     let cap = ctx.by_tier(64usize, 400usize);
-    ctx.phase("faults", ctx.by_tier(480, 20_000));
+    ctx.phase("faults", ctx.by_tier(400, 20_000));
     while let Some(k) = ctx.next_case() {
         let mut r = ctx.rng(k);
         let p = match r.below(4) {
@@ -1702,8 +1705,8 @@ fn phase_faults_cumulative(ctx: &mut Ctx) {
     ctx.phase("faults_cumulative", ctx.by_tier(2_400, 160_000));
     while let Some(k) = ctx.next_case() {
         if !ctx.within(0.65) {
-            ctx.count("faults_cumulative.cases_skipped_to_leave_budget_for_faults", 1);
-            continue;
+            ctx.count("phase_stopped_at_its_share_of_the_budget.faults_cumulative", 1);
+            break;
         }
         let mut r = ctx.rng(k);
         let p = if r.coin() { gen_prog(&mut r, 5, 8, 15, 60) } else { gen_prog(&mut r, 3, 5, 10, 40) };
@@ -1751,15 +1754,14 @@ fn phase_faults_cumulative(ctx: &mut Ctx) {
                         if !legit {
                             probs.push((json!({"kind": "exhaustion_reported_although_budget_not_exhausted", "api": s.api(true), "budget": if by_nodes { "nodes" } else { "deadline" }}), json!({"error": format!("{:?}", e), "k": kk})));
                         }
-                        ctx.count(if by_nodes { "cumulative.nodes.outcome_err" } else { "cumulative.deadline.outcome_err" }, 1);
-                        ctx.count(if by_nodes { "cumulative.nodes.fired" } else if once { "cumulative.deadline_once.fired" } else { "cumulative.deadline.fired" }, 1);
+                                                ctx.count(if by_nodes { "cumulative.nodes.fired_outcome_err" } else if once { "cumulative.deadline_once.fired_outcome_err" } else { "cumulative.deadline.fired_outcome_err" }, 1);
                         ctx.nontrivial(hash_str(&format!("cum/{:x}/{}/{}/{}", ph, si, by_nodes, kk)));
                         if kk > 5_000 {
                             probs.push((json!({"kind": "retries_with_growing_budget_never_succeed", "api": s.api(true)}), json!({"k": kk})));
                         }
                     }
                     Ok(id) => {
-                        ctx.count(if by_nodes { "cumulative.nodes.outcome_ok" } else { "cumulative.deadline.outcome_ok" }, 1);
+                        ctx.count(if by_nodes { "cumulative.nodes.outcome_ok" } else if once { "cumulative.deadline_once.outcome_ok" } else { "cumulative.deadline.outcome_ok" }, 1);
                         ctx.max("cumulative.max_retries_of_one_operation", (kk / stride) as u64);
                         check_result(&mut w, &mut book, id, p.tabs[h], s.api(true), "after_cumulative_retries", p.exact, Depth { wmc: true, grad: false, models: true }, &mut probs, &mut obs);
                         if probs.is_empty() && r.chance(1, 3) {
@@ -1833,7 +1835,7 @@ fn main() {
         "only right-linear vtrees are reachable through the public API (every new variable becomes the new top variable)",
         "weights: independent variables have neg = 1 - pos, exclusive-group variables have neg = 1 (the two documented encodings); dyadic k/16 weights are compared exactly, arbitrary f64 weights with relative tolerance 1e-9",
         "wmc / wmc_gradient are compared with the truth-table sum only for functions that decide every exclusive-group variable in every model (what `AND exactly_one(G)` guarantees); other functions are still checked for their truth table, canonicity and models",
-        "the deadline is modelled as a callback that returns false from its k-th call on (an expired deadline stays expired)",
+        "the deadline is modelled as a callback that returns false from its k-th call on (an expired deadline stays expired); kind deadline_once additionally refuses only at the k-th call (transient refusal: an error swallowed inside an operation would otherwise be masked by the next checkpoint)",
         "a successful budgeted operation must leave node_count() <= max(max_nodes, node_count() before) (read as part of 'reports exhaustion')",
         "SddManager is not Clone: every interruption point of the `faults` phase re-creates the manager by replaying the program prefix; hash-map iteration order inside compress may make checkpoint counts differ slightly between managers, so whether a budget fired is observed, not assumed",
         "trusted base: 256-bit truth tables and direct weighted sums in this file",
